@@ -1,0 +1,129 @@
+//go:build verif
+// +build verif
+
+// Contracts for package gf2, checked by /verif/gocv. This file is compiled
+// only under the build tag "verif"; it contains pure specification functions
+// and comment-only contract blocks (lines starting with "//@").
+
+package gf2
+
+// specClmul is the carry-less (GF(2)[x]) product of p and q modulo x^64,
+// defined by the textbook shift-and-xor recursion on the multiplier.
+func specClmul(p, q uint64) uint64 {
+	if q == 0 {
+		return 0
+	}
+	r := specClmul(p<<1, q>>1)
+	if q&1 != 0 {
+		r ^= p
+	}
+	return r
+}
+
+// specDeg is floor(log2(n)) for n > 0 (the degree of the polynomial n), and
+// 0 for n == 0.
+func specDeg(n uint64) uint64 {
+	if n>>1 == 0 {
+		return 0
+	}
+	return specDeg(n>>1) + 1
+}
+
+//@ func (Poly64).Plus
+//@   props C08
+//@   mode bv
+//@   ensures result == p ^ q
+
+//@ func (Poly64).Minus
+//@   props C08
+//@   mode bv
+//@   ensures result == p ^ q
+
+//@ func (Poly64).Times
+//@   props C08
+//@   mode bv
+//@   ensures uint64(result) == specClmul(uint64(old(p)), uint64(old(q)))
+//@   uses clmulZeroL
+//@   loop 0
+//@     invariant uint64(prod) ^ specClmul(uint64(p), uint64(q)) == specClmul(uint64(old(p)), uint64(old(q)))
+//@     decreases q
+
+//@ func ilog2
+//@   props C08
+//@   mode bv
+//@   ensures uint64(result) == specDeg(old(n))
+//@   ensures result <= 63
+//@   loop 0
+//@     invariant uint64(r) + specDeg(n) == specDeg(old(n))
+//@     invariant uint64(r) + specDeg(n) <= 63
+//@     decreases n
+
+//@ lemma clmulZeroL
+//@   props C08
+//@   forall q uint64
+//@   ensures specClmul(0, q) == 0
+//@   induct q := q >> 1
+
+//@ lemma degBound
+//@   props C08
+//@   forall n uint64
+//@   ensures specDeg(n) <= 63
+
+//@ lemma clmulAddL
+//@   props C08
+//@   forall a uint64, b uint64, q uint64
+//@   ensures specClmul(a ^ b, q) == specClmul(a, q) ^ specClmul(b, q)
+//@   induct q := q >> 1; a := a << 1; b := b << 1
+
+//@ lemma clmulShiftL
+//@   props C08
+//@   forall p uint64, q uint64
+//@   ensures specClmul(p << 1, q) == specClmul(p, q) << 1
+//@   induct q := q >> 1; p := p << 1
+
+//@ lemma clmulOneL
+//@   props C08
+//@   forall q uint64
+//@   ensures specClmul(1, q) == q
+//@   induct q := q >> 1
+//@   use clmulShiftL(1, q >> 1)
+
+//@ lemma clmulPow2L
+//@   props C08
+//@   forall d uint64, q uint64
+//@   requires d <= 63
+//@   ensures specClmul(1 << d, q) == q << d
+//@   induct d := d - 1
+//@   use clmulOneL(q)
+//@   use clmulShiftL(1 << (d - 1), q)
+
+//@ lemma degTop
+//@   props C08
+//@   forall n uint64
+//@   requires n != 0
+//@   ensures (n >> specDeg(n)) == 1
+//@   induct n := n >> 1
+//@   use degBound(n)
+
+//@ lemma xorTopDecreases
+//@   props C08
+//@   forall r uint64, p2 uint64, dr uint64, dp uint64
+//@   requires dp <= dr && dr <= 63 && (r >> dr) == 1 && (p2 >> dp) == 1
+//@   ensures r ^ (p2 << (dr - dp)) < r
+
+//@ func (Poly64).Div
+//@   props C08
+//@   mode bv
+//@   panics p2 == 0
+//@   ensures specClmul(uint64(q), uint64(p2)) ^ uint64(r) == uint64(p)
+//@   ensures r == 0 || specDeg(uint64(r)) < specDeg(uint64(p2))
+//@   loop 0
+//@     invariant specClmul(uint64(q), uint64(p2)) ^ uint64(r) == uint64(p)
+//@     invariant uint64(log2p2) == specDeg(uint64(p2))
+//@     decreases r
+//@     use-step clmulAddL(uint64(head(q)), 1 << uint64(dlog2), uint64(p2))
+//@     use-step clmulPow2L(uint64(dlog2), uint64(p2))
+//@     use-step degTop(uint64(head(r)))
+//@     use-step degTop(uint64(p2))
+//@     use-step degBound(uint64(head(r)))
+//@     use-step xorTopDecreases(uint64(head(r)), uint64(p2), specDeg(uint64(head(r))), specDeg(uint64(p2)))
